@@ -93,7 +93,7 @@ def run(chk):
         toy_jobs = [("toy-q11", ["-q", "11", "-what", "ped,keys,elg"]),
                     ("toy-q7", ["-q", "7", "-what", "ped,keys,elg"]),
                     ("toy-q5", ["-q", "5", "-what", "ped,keys,elg"]),
-                    ("toy-q251", ["-q", "251", "-what", "keys"])]
+                    ("toy-q13", ["-q", "13", "-what", "ped,keys,elg", "-lams", "2,6,12"])]
         rand_jobs = [(11, 3000), (251, 3000), (45971, 300)]
         tok_n, key_n, int_args = 150, 400, [("int-47x59", ["-q", "0", "-n", "600"]), ("int-83x107", ["-q", "1", "-n", "600"])]
     stats = {"lines": 0, "by_action": {}, "programmes_from_tlc": 0}
